@@ -214,6 +214,25 @@ def call(f, req):
 
 # --------------------------------------------------------------------- worlds
 
+class CountingPythia:
+  """Delegating proxy around the servicer's Pythia service: counts calls."""
+
+  def __init__(self, inner, calls):
+    self._inner = inner
+    self.calls = calls
+
+  def Suggest(self, request, context=None):  # pylint: disable=invalid-name
+    self.calls['Suggest'] = self.calls.get('Suggest', 0) + 1
+    return self._inner.Suggest(request)
+
+  def EarlyStop(self, request, context=None):  # pylint: disable=invalid-name
+    self.calls['EarlyStop'] = self.calls.get('EarlyStop', 0) + 1
+    return self._inner.EarlyStop(request)
+
+  def Ping(self, request, context=None):  # pylint: disable=invalid-name
+    return self._inner.Ping(request)
+
+
 class World:
   """A real VizierServicer on one backend, with an optional policy factory."""
 
@@ -233,6 +252,7 @@ class World:
       self.dbpath = os.path.join(dbdir, 'v.db')
     self.sv = None
     self.op_names = []  # every suggestion op name ever returned
+    self.calls = {}  # Pythia invocations, by RPC
     self.open()
 
   @property
@@ -248,6 +268,7 @@ class World:
     if self.policy_factory is not None:
       sv.default_pythia_service = pythia_service.PythiaServicer(
           sv, policy_factory=self.policy_factory)
+    sv.default_pythia_service = CountingPythia(sv.default_pythia_service, self.calls)
     self.sv = sv
     return sv
 
